@@ -383,7 +383,28 @@ func (c *Ctx) ReplayKnown() {
 				mine = true
 			}
 		}
-		if !mine || f.Status != "known" || f.Op == "" {
+		if !mine || f.Op == "" {
+			continue
+		}
+		if f.Status == "fixed" {
+			// regression corpus: the witness of a repaired finding must agree with the model
+			// (no flag is recorded for it, so any disagreement is reported like any other)
+			args := make([][]byte, len(f.Args))
+			for i, a := range f.Args {
+				if a == "-" {
+					continue
+				}
+				bs, _ := hex.DecodeString(a)
+				args[i] = bs
+			}
+			impl := c.Impl(0, f.Op, args...)
+			if v, cur, none := c.Tie(0, f.Op, impl, args...); v == Violation {
+				c.Report(0, f.Op, "witness of repaired finding "+f.ID, args, impl, cur, none)
+			}
+			c.Count("repaired_finding_witnesses_replayed", 1)
+			continue
+		}
+		if f.Status != "known" {
 			continue
 		}
 		args := make([][]byte, len(f.Args))
